@@ -427,6 +427,22 @@ class Pred(object):
         return self.ok(t.serial)
 
 
+class PredFailing(Pred):
+    """the same selection, but half of the rejected values are rejected by failing (an
+    AttributeError, as for a value that lacks an attribute): for a Selector with
+    raise_on_error=False that means "not selected" """
+
+    def __call__(self, value):
+        t = tok_of(value)
+        if t is None:
+            self.log.ev("sel", self.name, None)
+            return True
+        self.log.ev("sel", self.name, t.serial)
+        if not self.ok(t.serial) and t.serial % 2:
+            raise AttributeError("the value has no such attribute")
+        return self.ok(t.serial)
+
+
 class Unprintable(object):
     """an object that cannot be formatted: passing it on must not try to"""
 
